@@ -19,6 +19,9 @@ VERIF = os.path.dirname(os.path.abspath(__file__))
 REPO = os.environ.get("ELFIO_REPO", "/repo")
 LEAN = os.path.join(VERIF, "lean")
 BUILD = os.path.join(VERIF, "build")
+# evidence directory: overridable so that runs against deliberately modified trees (tools/run_seeded.py)
+# do not overwrite the evidence of the unchanged tree
+EVID = os.environ.get("VERIF_EVIDENCE_DIR") or os.path.join(VERIF, "evidence")
 NPROC = min(16, os.cpu_count() or 4)
 ALLOWED_AXIOMS = {"propext", "Classical.choice", "Quot.sound"}
 BV_AXIOMS_OK_IN = os.path.join(LEAN, "ElfioVerif", "Lemmas", "Bits.lean")
@@ -253,13 +256,13 @@ def main():
     fam = importlib.import_module(f"families.{pid.lower()}")
     t0 = time.time()
     os.makedirs(BUILD, exist_ok=True)
-    os.makedirs(os.path.join(VERIF, "evidence", "replay"), exist_ok=True)
+    os.makedirs(os.path.join(EVID, "replay"), exist_ok=True)
     log = []
     problems = []       # things that make the property "no longer shown to hold"
     if a.replay is None:
-        for f in os.listdir(os.path.join(VERIF, "evidence", "replay")):
+        for f in os.listdir(os.path.join(EVID, "replay")):
             if f.startswith(pid + "-"):
-                os.remove(os.path.join(VERIF, "evidence", "replay", f))
+                os.remove(os.path.join(EVID, "replay", f))
     # 1. regeneration
     rc, gout, gstat = step_gen()
     broken_sites = {k: v for k, v in gstat.items() if v != "ok"}
@@ -365,7 +368,7 @@ def main():
 
     # 5. verdict
     exit_code = 0; vio_lines = []
-    rp_dir = os.path.join(VERIF, "evidence", "replay")
+    rp_dir = os.path.join(EVID, "replay")
     if viols:
         c, v = viols[0]
         def still(lines):
@@ -433,7 +436,7 @@ def main():
         "wall_s": round(time.time() - t0, 2),
         "violations": len(viols) + (1 if (problems or diffs) and not viols else 0),
     }
-    with open(os.path.join(VERIF, "evidence", f"{pid}.json"), "w") as f:
+    with open(os.path.join(EVID, f"{pid}.json"), "w") as f:
         json.dump(ev, f, indent=1)
     print(f"{pid} {tier} seed={seed}: theorems {discharged}/{len(theorems)}, cases {len(cases)} "
           f"(nontrivial {len(nontriv)}), corr-diffs {len(diffs)}, oracle-violations {len(viols)}, "
